@@ -65,7 +65,7 @@ def predicted_trunc_bug(sr, nb, spb, n):
     return int((n * (spb * tbin)) / tbin) != n * spb
 
 
-def gen_record(rng, want_divergent):
+def gen_record(rng, want_divergent, from_data=False):
     for _ in range(4000):
         nb = rng.choice([4, 8, 16])
         taps = rng.choice([1, 2, 3, 4])
@@ -95,6 +95,15 @@ def gen_record(rng, want_divergent):
             c["obs_length"] = float(rng.choice([n * tpb, rng.uniform(1.0, 5.5) * tpb])).hex()
         else:
             c["num_blocks"] = n
+        if from_data:
+            # a backend on existing RAW data: the request may exceed, equal or fall short of what the input holds, or be omitted
+            c["input_blocks"] = rng.randint(1, 4)
+            c["in_bpf"] = rng.randint(1, 3)
+            if "num_blocks" in c and rng.random() < 0.3:
+                c["num_blocks"] = None
+                c["length_mode"] = rng.choice(["num_blocks", "obs_length"])
+        elif rng.random() < 0.04 and "num_blocks" in c:
+            c["num_blocks"] = None          # nothing to fall back on: ValueError
         return c
     return None
 
@@ -193,7 +202,7 @@ def run(ctx):
     nrec = 45 if quick else 600
     rcases = corpus()
     for k in range(nrec):
-        c = gen_record(rng, want_divergent=(k % 3 == 0))
+        c = gen_record(rng, want_divergent=(k % 3 == 0), from_data=(k % 3 == 1))
         if c:
             rcases.append(c)
     exprs = []
@@ -206,15 +215,45 @@ def run(ctx):
     rimpl = []
     for part in C.run_impl_parallel("c20_impl", [dict(mode="record", cases=ch) for ch in C.chunks(rcases, C.NCPU)]):
         rimpl.extend(part)
+    eexprs = []; eidx = []
+    for c, r in zip(rcases, rimpl):
+        if "error" in r:
+            continue
+        req = r.get("requested_by_obs") if "obs_length" in c else c.get("num_blocks")
+        opt = lambda v: "None" if v is None else "(Some %s)" % C.gz(v)
+        eexprs.append("match effective_blocks %s %s with Some n => n | None => (-1)%%Z end" % (opt(req), opt(r.get("input_blocks"))))
+        eidx.append(id(c))
+    try:
+        emodel = dict(zip(eidx, C.coq_eval(IMPORTS, eexprs, shard=400)))
+    except Exception as ex:
+        ctx.model_error(str(ex)[-1500:]); emodel = {}
     for c, mv, r in zip(rcases, rvals, rimpl):
         ctx.count(dict(k="record", c=c), nontrivial="error" not in r)
-        ctx.tally("record_mode", "obs_length" if "obs_length" in c else "num_blocks")
+        ctx.tally("record_mode", "obs_length" if "obs_length" in c else "num_blocks" if c.get("num_blocks") is not None else "omitted")
         ctx.tally("record_windows_per_block", c["block_size"] // (c["nants"] * c["nchans"] * c["taps"] * bps_of(c)))
         ctx.tally("record_nsub", c["num_subblocks"])
+        ctx.tally("record_backend", "from_data" if c.get("input_blocks") else "synthetic")
+        nothing_given = ("obs_length" not in c and c.get("num_blocks") is None)
         if "error" in r:
+            if nothing_given and not c.get("input_blocks") and r.get("error_type") == "ValueError":
+                continue            # no length and no input data to fall back on
             ctx.impl_violation("record-raises", "record() raised %s" % r["error"], c)
             continue
         n = r["num_blocks"]; spb = r["spb"]; nb = c["nb"]; win = c["taps"] * nb
+        requested = r.get("requested_by_obs") if "obs_length" in c else c.get("num_blocks")
+        inp = r.get("input_blocks")
+        if c.get("input_blocks") and inp != c["input_blocks"]:
+            ctx.impl_violation("input-blocks", "from_data counts %s blocks in an input of %d" % (inp, c["input_blocks"]), c)
+        want_n = min(x for x in (requested, inp) if x is not None) if (requested is not None or inp is not None) else None
+        ctx.tally("record_request_vs_input", "n/a" if inp is None else "omitted" if requested is None else "more" if requested > inp else "equal" if requested == inp else "fewer")
+        if want_n is None:
+            ctx.impl_violation("record-no-length", "record() without a length and without input data must raise ValueError (recorded %d blocks)" % n, c)
+            continue
+        if n != want_n:
+            ctx.impl_violation("effective-blocks", "requested %s blocks with %s available in the input: num_blocks=%d, expected %d" % (requested, inp, n, want_n), c)
+        em = emodel.get(id(c))
+        if em is not None and em != n:
+            ctx.mismatch("effective_blocks: model %s, implementation %d (requested %s, input %s)" % (em, n, requested, inp), c)
         sr = Fraction(float.fromhex(c["sample_rate"]))
         drawn = sum(r["requests"])
         want_drawn = n * spb * nb + (win if n >= 1 else 0)
@@ -236,19 +275,21 @@ def run(ctx):
             ctx.impl_violation("blocks-written", "%d blocks written, num_blocks=%d" % (nblk, n), c)
         flat = [b for f in r["blocks"] for b in f]
         if flat:
-            p0 = int(flat[0]["PKTSTART"])
+            num = lambda v: int(str(v).replace("'", "").strip())       # cards inherited from an input file are carried as (quoted) strings
+            p0 = num(flat[0]["PKTSTART"])
             for k, b in enumerate(flat):
-                if int(b["PKTIDX"]) != p0 + k * spb or int(b["PKTSTOP"]) != p0 + n * spb or b["ndata"] != c["block_size"]:
+                if num(b["PKTIDX"]) != p0 + k * spb or num(b["PKTSTOP"]) != p0 + n * spb or b["ndata"] != c["block_size"]:
                     ctx.impl_violation("pkt", "block %d header PKTIDX/PKTSTOP/BLOCSIZE wrong: %s" % (k, b), c)
                     break
-                if float(b["SCANLEN"]) != float.fromhex(r["obs_length"]):
+                if float(str(b["SCANLEN"]).replace("'", "")) != float.fromhex(r["obs_length"]):
                     ctx.impl_violation("scanlen", "SCANLEN %s != obs_length %r" % (b["SCANLEN"], float.fromhex(r["obs_length"])), c)
                     break
         if "obs_length" in c:
             ob = Fraction(float.fromhex(c["obs_length"]))
             tpb = Fraction(spb) * nb / sr
             eps = Fraction(1, 10 ** 9) * max(ob, tpb)
-            if not (math.floor((ob - eps) / tpb) <= n <= math.floor((ob + eps) / tpb)):
+            nn = requested if inp is not None else n
+            if not (math.floor((ob - eps) / tpb) <= nn <= math.floor((ob + eps) / tpb)):
                 ctx.impl_violation("duration", "obs_length %r recorded %d blocks of %r s" % (float(ob), n, float(tpb)), c)
         if mv is not None:
             mreq = [x for blk in mv[:n] for x in blk]
